@@ -606,8 +606,57 @@ func scopeMatrix(emit func([]string)) {
 	}
 }
 
+// setCase: a side installed through the Go API (SetRequestModifier / SetResponseModifier) between
+// POSTs: the body accepted before is posted again (same text), or another one, or a rejected one first;
+// traffic of both kinds after every step.
+func setCase(r *core.Rand) []string {
+	var ops []string
+	tree := func() *node {
+		g := &genState{r: r, maxD: r.Range(1, 3), maxW: 3}
+		return g.tree(1)
+	}
+	both := func(ts ...*node) {
+		var cs []*condSpec
+		for _, t := range ts {
+			cs = append(cs, t.conds()...)
+		}
+		for _, k := range []string{"q", "s", r.Pick("q", "s")} {
+			ops = append(ops, "run "+k+" "+genMessage(r, cs...).token())
+		}
+	}
+	a := tree()
+	ops = append(ops, "post "+a.String())
+	both(a)
+	sets := r.Range(1, 2)
+	var bs []*node
+	for i := 0; i < sets; i++ {
+		b := tree()
+		if r.Chance(1, 6) {
+			b = defect(r, b)
+		}
+		bs = append(bs, b)
+		ops = append(ops, "set "+r.Pick("q", "s")+" "+b.String())
+		both(append([]*node{a}, bs...)...)
+	}
+	switch r.Intn(4) {
+	case 0, 1: // the body that was accepted before, again
+		ops = append(ops, "post "+a.String())
+	case 2: // a rejected body first
+		ops = append(ops, "post "+defect(r, tree()).String())
+		both(append([]*node{a}, bs...)...)
+		ops = append(ops, "post "+a.String())
+	default:
+		a = tree()
+		ops = append(ops, "post "+a.String())
+	}
+	both(append([]*node{a}, bs...)...)
+	return ops
+}
+
 func (P) Gen(r *core.Rand, tier string, emit func([]string)) {
 	n := 1500
+	cp := *r // an own stream for the set cases, so that the other cases stay what they were
+	rs := (&cp).Fork()
 	if tier == "thorough" {
 		n = 40000
 	}
@@ -633,6 +682,9 @@ func (P) Gen(r *core.Rand, tier string, emit func([]string)) {
 		}
 		if i%6 == 1 {
 			emit(aggCase(r.Fork()))
+		}
+		if i%4 == 2 {
+			emit(setCase(rs.Fork()))
 		}
 		if i%2 == 0 {
 			if c := jsonCase(r.Fork()); len(c) > 0 {
